@@ -613,6 +613,8 @@ def to_map(tokens):
 
 
 def _simpler_struct_value(v):
+    if isinstance(v, str):
+        return v
     try:
         v = v[0]
         if len(v) == 1 and "value" in v:
